@@ -174,6 +174,10 @@ func c02(r *report.Run) {
 		"all(map([[0.75], [8]], {map(#, {# * 2})}), {all(#, {# not in 1..3})})", "count(map([X], {[# * 2]}), {count(#, {# in 1..3}) > 0})"} {
 		raw = append(raw, src)
 	}
+	// map literals with a repeated key (written twice, or equal only after folding), literal and non-literal values
+	for _, src := range []string{"{a: 1, a: 2}.a", "{a: 1, b: 2, a: 3}", `{("x" + "y"): "first", xy: "second"}.xy`, `{1: "a", 1: "b"}["1"]`, "{a: I, a: 2}.a", `{"a": 1, a: 2}`, "len({a: 1, a: 2})", "{a: [1], a: [2]}.a[0]"} {
+		raw = append(raw, src)
+	}
 	// slices of literal arrays (folded into typed constants when optimized) with every pair of bounds, descending ones included
 	for _, arr := range []string{"[1, 2, 3, 4]", `["a", "b", "c"]`, `[1, "b", 3.5]`, "[1]", `"abcd"`, "1..4", "A"} {
 		for _, f := range []string{"", "0", "1", "3", "7", "-1", "I"} {
